@@ -11,7 +11,7 @@ shutil.copy('%s/m%s_demo.rs' % (src, i), dst + '/demo.rs')
 desc = open('%s/m%s.txt' % (src, i)).read().strip()
 base = subprocess.run(['git', '-C', '/repo', 'rev-parse', '--short', 'HEAD'], capture_output=True, text=True).stdout.strip()
 meta = {
-    'id': '%s-m%s' % (prop, i), 'breaks_property': prop, 'description': desc,
+    'id': '%s-m%s' % (prop, i), 'breaks_property': (open('%s/m%s.txt' % (src, i)).readline().split(':')[-1].strip() if not prop[1:].isdigit() else prop), 'description': desc,
     'needs_to_manifest': desc,
     'produced_by': 'independent sub-agent given only the property text and its own worktree (nothing from /verif)',
     'confirmed': {'how': 'tools/confirm_mutation.sh in scratch worktree /tmp/mutv: (1) patch applied: cargo test --workspace --offline --lib --tests passes; (2) patch applied: demo.rs (as simple-dns/tests/vxdemo.rs) fails; (3) patch reverted: demo passes',
